@@ -70,9 +70,6 @@ End Corollaries.
 Section NodeLevel.
 Variable O : std_oracle.
 
-Definition run_node_entry_gen (m : emode) (t : etype) (n : node) (c : ctx) (lg : log) : outcome value * ctx * log :=
-  run_wrapper O 4 LvNode (entry_name m t) (InNode n) c lg.
-
 Definition run_node_entry (m : emode) (t : etype) (n : node) (c : ctx) (lg : log) : outcome value * ctx * log :=
   match m with
   | MRo => let '(r, lg') := eval_ro O n c lg in (project t r, c, lg')
@@ -84,7 +81,7 @@ Local Opaque eval_ro eval_mut.
 
 Lemma node_entry_gen_eq (m : emode) (t : etype) (n : node) (c : ctx) (lg : log) :
   translation_complete = true ->
-  run_node_entry_gen m t n c lg = run_node_entry m t n c lg.
+  run_node_entry_gen O m t n c lg = run_node_entry m t n c lg.
 Proof.
   intros _.
   destruct m, t; unfold run_node_entry_gen, run_node_entry, entry_name;
